@@ -24,6 +24,8 @@ def _gens(h):
 
 
 HG = 'H[L - G] if G > 0 else H[0]'
+# a tie counts as zero change (this is what makes plateaus of inf decidable: inf - inf is nan in IEEE)
+TIE = '((%s) == H[L-1])' % HG
 
 
 def _history_case(h, factory, kwargs, spec, needs_window=True):
@@ -59,7 +61,7 @@ def cog(h):
     h.assume('tolerance >= 0', tolerance=tol)
     g = _gens(h)
     _history_case(h, 'ChangeOverGeneration', dict(tolerance=tol, generations=g),
-                  'L > G and ((%s) - H[L-1] <= tolerance)' % HG)
+                  'L > G and ((%s) - H[L-1] <= tolerance or %s)' % (HG, TIE))
 
 
 @contract('C10/NormalizedChangeOverGeneration', ['C10'],
@@ -71,7 +73,7 @@ def ncog(h):
     # documented: (cost[-g]-cost[-1]) / (0.5*(|cost[-g]|+|cost[-1]|)) <= tol, with the eta=1e-20 guard of the
     # implementation's docstring-equivalent form 2*(a-b) <= tol*(|a|+|b|) + 1e-20
     _history_case(h, 'NormalizedChangeOverGeneration', dict(tolerance=tol, generations=g),
-                  'L > G and (2.0*((%s) - H[L-1]) <= tolerance*(abs(%s) + abs(H[L-1])) + 1e-20)' % (HG, HG))
+                  'L > G and (%s or 2.0*((%s) - H[L-1]) <= tolerance*(abs(%s) + abs(H[L-1])) + 1e-20)' % (TIE, HG, HG))
 
 
 @contract('C10/NormalizedCostTarget', ['C10'], T + 'NormalizedCostTarget._NormalizedCostTarget')
@@ -82,7 +84,7 @@ def nct(h):
     fk = h.choice('fval_kind', ['None', 'real'])
     fval = None if fk == 'None' else h.real('fval')
     if fval is None:
-        spec = '(L > G and ((%s) - H[L-1] <= 0)) if G != 0 else True' % HG
+        spec = '(L > G and ((%s) - H[L-1] <= 0 or %s)) if G != 0 else True' % (HG, TIE)
     else:
         spec = 'abs(H[L-1] - fval) <= abs(tolerance * fval)'
     _history_case(h, 'NormalizedCostTarget', dict(fval=fval, tolerance=tol, generations=g), spec)
@@ -94,4 +96,4 @@ def vtrcog(h):
     h.assume('ftol >= 0 and gtol >= 0', ftol=ftol, gtol=gtol)
     g = _gens(h)
     _history_case(h, 'VTRChangeOverGeneration', dict(ftol=ftol, gtol=gtol, generations=g, target=target),
-                  '(L > G and ((%s) - H[L-1] <= gtol)) or abs(H[L-1] - target) <= ftol' % HG)
+                  '(L > G and ((%s) - H[L-1] <= gtol or %s)) or abs(H[L-1] - target) <= ftol' % (HG, TIE))
